@@ -209,7 +209,7 @@ def rca_case(n, d, n_chunks, chunk_size, budget, lo=-1):
   return fn
 
 
-def scml_case(labels, d, kg, ki, basis):
+def scml_case(labels, d, kg, ki, basis, light=False):
   labels = list(labels)
   n = len(labels)
 
@@ -218,6 +218,10 @@ def scml_case(labels, d, kg, ki, basis):
     from metric_learn.scml import _BaseSCML
     from metric_learn.constraints import Constraints
     X = ctx.real('X', (n, d))
+    if light:
+      # stated bound of the light variant: points listed in strictly increasing order (one neighbour ordering per anchor, no ties)
+      for i in range(n - 1):
+        ctx.assume(ctx.lt(X[i, 0], X[i + 1, 0]))
     y = np.array(labels)
     est = SCML_Supervised(k_genuine=kg, k_impostor=ki, basis=basis, n_basis=3, random_state=0)
     sentinel = (np.zeros((3, d)), 3)
@@ -238,12 +242,12 @@ def scml_case(labels, d, kg, ki, basis):
     # X[T] for the helper's own answer on this path (the nondeterministic ties are replayed in order)
     known = [i for i in range(n) if labels[i] >= 0]
     ok_rows = []
-    for row in range(np.shape(got_t)[0]):
+    for row in range(0 if light else np.shape(got_t)[0]):
       for m in range(3):
         ok_rows.append(ctx.or_(*[ctx.all_eq(got_t[row, m], X[i], tol=0.0) for i in known]))
     ctx.require('triplet_rows_come_from_labeled_points', ctx.and_(*ok_rows) if ok_rows else ctx.true())
     # class structure of every recorded triplet (a, b same class; c other class), read back through X
-    for row in range(np.shape(got_t)[0]):
+    for row in range(0 if light else np.shape(got_t)[0]):
       conds = []
       for ia in known:
         for ib in known:
@@ -258,6 +262,21 @@ def scml_case(labels, d, kg, ki, basis):
       other = [j for j in known if labels[j] != labels[ia]]
       expect += min(kg, len(same)) * min(ki, len(other))
     ctx.require('number_of_triplets_is_the_helper_count', ctx.cond(np.shape(got_t)[0] == expect))
+    if light:
+      # per anchor: min(k_genuine, same-class others) * min(k_impostor, other-class points) triplets -- the clamp is per class
+      # (anchors are identified through the strictly ordered coordinates; independent of how distance ties are broken)
+      def idx_of(v):
+        for i in range(n):
+          same_v = core.term_of(v, True).eq(core.term_of(X[i, 0], True)) if ctx.symbolic else float(v) == float(X[i, 0])
+          if same_v:
+            return i
+        return -1
+      anchors = [idx_of(got_t[r_, 0, 0]) for r_ in range(np.shape(got_t)[0])]
+      for ia in known:
+        same = [j for j in known if labels[j] == labels[ia] and j != ia]
+        other = [j for j in known if labels[j] != labels[ia]]
+        ctx.require('triplets_per_anchor_follow_the_per_class_clamp', ctx.cond(anchors.count(ia) == min(kg, len(same)) * min(ki, len(other))),
+                    detail='anchor %d: %d triplets' % (ia, anchors.count(ia)))
     gb = a[1] if len(a) > 1 else k.get('basis')
     gn = a[2] if len(a) > 2 else k.get('n_basis')
     if basis == 'lda':
@@ -335,6 +354,12 @@ def cases(tier, seed):
                       scml_case(labels, 1, 1, 1, basis), FUNCS,
                       'labels %s, points arbitrary reals in R^1, k_genuine=k_impostor=1, basis=%s' % (list(labels), basis),
                       tiers=tiers if basis == 'triplet_diffs' or labels == (0, 0, 1, 1) else T, cost=10, max_paths=100000, validate=6))
+  # unbalanced classes with k larger than the smallest class allows: the clamp is per class (the other classes keep their k)
+  for labels, kg, ki, tiers in (((0, 0, 0, 1, 1), 2, 1, Q), ((0, 0, 0, 1, 1), 1, 3, Q), ((0, 1, 0, -1, 0, 1), 2, 2, T)):
+    out.append(case('scml_%s_g%d_i%d_unbalanced' % (''.join('u' if v < 0 else str(v) for v in labels), kg, ki),
+                    scml_case(labels, 1, kg, ki, 'triplet_diffs', light=True), FUNCS,
+                    'labels %s, points arbitrary reals in R^1 listed in strictly increasing order, k_genuine=%d, k_impostor=%d (more than the smallest class / the other classes allow)' % (list(labels), kg, ki),
+                    tiers=tiers, cost=20, max_paths=200000, validate=6))
   return out
 
 
